@@ -305,6 +305,7 @@ def run_check(prop, tier):
                 race_viols.append(race_replay(work, binp, sig, r, tier, replaydir, minimise=i < 2))
 
         # determinism spot check: shard 0's first runs again, other GOMAXPROCS
+        det_mismatch = None
         d0 = results[0].get("digests") or {}
         if d0:
             out = os.path.join(work.dir, "out.verify.json")
@@ -317,8 +318,12 @@ def run_check(prop, tier):
                 die(2, "HARNESS-ERROR: determinism re-run failed (exit 2)")
             d1 = json.load(open(out)).get("digests") or {}
             for k, v in d1.items():
-                if d0.get(k) != v:
-                    die(2, "HARNESS-ERROR: determinism self-check mismatch for run seed %s (%s vs %s) (exit 2)" % (k, d0.get(k), v))
+                if d0.get(k) != v and not det_mismatch:
+                    # decided after the merge: a library that has become
+                    # nondeterministic (a pool, a map order, a goroutine of its
+                    # own) shows here first, and a violation that reproduces
+                    # from its replay file is the better report
+                    det_mismatch = "determinism self-check mismatch for run seed %s (%s vs %s)" % (k, d0.get(k), v)
         det_checked = len(d0)
 
         # merge
@@ -439,6 +444,10 @@ def run_check(prop, tier):
         for v in norepro:
             print("note: not exactly reproducible from its replay file (racy tree?): %s :: %s" % (v["sig"], v["detail"][:300]))
         new_viol = [x for x in new_viol if x[1].get("repro")]
+        if det_mismatch and not new_viol:
+            die(2, "HARNESS-ERROR: %s (exit 2)" % det_mismatch)
+        if det_mismatch:
+            print("note: %s - the same seed gave two different executions in two processes, so something outside the simulator's seams decides behaviour on this tree" % det_mismatch)
         if not new_viol and norepro:
             die(2, "HARNESS-ERROR: violations were seen but none reproduced exactly from its replay file (exit 2)")
         if not new_viol and missing_reach:
@@ -446,6 +455,10 @@ def run_check(prop, tier):
         if new_viol:
             for sig, v, _ in new_viol:
                 print("violation: %s\n   %s\n   minimised to %d steps, seen %d times" % (sig, v["detail"], v["steps"], sigcounts.get(sig, 0)))
+                if v.get("flaky"):
+                    print("   note: not a function of the schedule on this tree: fresh processes showed it in %s replays of the unshrunk plan (the library keeps state outside the simulator's seams); the replay file tries up to 48 times" % v["flaky"])
+                elif v.get("how") and v["how"] != "exact":
+                    print("   note: reproduces %s" % v["how"])
                 if v.get("detector_repro") is False:
                     print("   note: the replay file reproduces the schedule; the race detector did not repeat its report in 16 attempts (its reports are probabilistic, see DESIGN 14)")
                 print("VIOLATION property=%s replay=%s" % (prop, v["replay"]))
